@@ -256,7 +256,40 @@ func runC15(c *Ctx, phase string) {
 			join = []string{" AND ", " OR ", " AND (", " OR ( ", "  AND  "}[r.Intn(5)]
 		}
 		bad := r.Pick(bads)
+		candidate := false
+		if r.Chance(1, 5) {
+			// candidates: listed ids (licenses and exceptions) carrying a second / an inapplicable suffix. Whether they are valid is
+			// C05's business; IF the library rejects one with an offset-bearing message, the offset must be right (the scanner has
+			// rewritten its buffer for the -or-later forms by the time it decides)
+			base := r.Pick(u.AllLicense)
+			if r.Chance(1, 3) {
+				base = r.Pick(u.Exceptions)
+			}
+			if strings.Contains(base, "+") {
+				base = "MIT" // a '+' inside the candidate would split it into two tokens
+			}
+			if r.Chance(1, 4) {
+				base = gen.MixCase(r, base)
+			}
+			bad = base + []string{"-only-or-later", "-or-later-or-later", "-or-later-only", "-only-only", "-or-later", "-only", "-or-later+", "-only-or-later+"}[r.Intn(8)]
+			inCtx := bad
+			if r.Chance(1, 3) && prefix != "" {
+				join += "MIT WITH "
+				inCtx = "MIT WITH " + bad
+			}
+			if c.Valid(inCtx) {
+				c.Inc("candidates_accepted_by_the_library") // not an invalid token here: nothing to check
+				continue
+			}
+			candidate = true
+			c.Inc("candidate_bad_tokens")
+		}
 		suffix := []string{"", " AND MIT", " OR (ISC)", ")", " +", " WITH x", " \xff", " AND Apache-2.0-or-later"}[r.Intn(8)]
+		if candidate {
+			// nothing after the candidate may be a lexical error of its own (an exception id is a well-formed token to the scanner,
+			// which reports ITS first problem before the parser runs)
+			suffix = []string{"", " AND MIT", " OR (ISC)", ")"}[r.Intn(4)]
+		}
 		s := prefix + join + bad + suffix
 		cs := C15Case{Bad: ev.QS(s), Rewrites: rewrites, BadAt: len(prefix) + len(join)}
 		cs.MissingAt = cs.BadAt + 1
